@@ -517,7 +517,18 @@ func (s *Stage) Recover() {
 				oldest = info.ModTime()
 			}
 			base := strings.TrimSuffix(path, compExt)
+			waitValid := false
 			if _, err = os.Stat(base + waitExt); !os.IsNotExist(err) {
+				// The companion may already describe a newer, still incomplete
+				// version of this name; only a validated file that matches its
+				// companion may be finalized with that companion's metadata.
+				hash, hashErr := fileutil.FileMD5(base + waitExt)
+				waitValid = hashErr == nil && hash == cmp.Hash
+				if !waitValid {
+					s.logError("Validated file does not match its companion (not finalized):", cmp.Name)
+				}
+			}
+			if waitValid {
 				// .wait
 				s.logDebug("Found ready to finalize:", cmp.Name)
 				finalize = append(finalize, cmp)
